@@ -62,6 +62,12 @@ type variant struct {
 	Verbose bool  // -test.v (needed to attribute race reports to sub-tests)
 	Procs   []int // per-shard GOMAXPROCS values (cycled); empty = inherit
 	Pkg     string // test package of this variant ("" = the property's own)
+	// Fuzz: run this native Go fuzz target (coverage-guided) instead of the tests, for FuzzExecs
+	// executions; Monitor is the monitor under which a failing input is filed (its case is
+	// replayable through the ordinary replay path)
+	Fuzz      string
+	FuzzExecs int
+	Monitor   string
 }
 
 type propCfg struct {
@@ -256,7 +262,7 @@ func runProp(id, tier string, rp *replayReq) int {
 	}
 	// variants with the same (race, shim) flags share one binary
 	bkey := func(v variant) string {
-		return fmt.Sprintf("race=%v-shim=%v-%s", v.Race, v.Shim != "", strings.NewReplacer("/", "_", ".", "").Replace(v.Pkg))
+		return fmt.Sprintf("race=%v-shim=%v-%s%s", v.Race, v.Shim != "", strings.NewReplacer("/", "_", ".", "").Replace(v.Pkg), v.Fuzz)
 	}
 	keyed := map[string]*built{}
 	var wg sync.WaitGroup
@@ -273,6 +279,9 @@ func runProp(id, tier string, rp *replayReq) int {
 			args := []string{"test", "-c", "-tags", "verif", "-o", b.bin}
 			if v.Race {
 				args = append(args, "-race")
+			}
+			if v.Fuzz != "" {
+				args = append(args, "-fuzz=^"+v.Fuzz+"$")
 			}
 			if v.Shim != "" {
 				args = append(args, "-modfile="+filepath.Join(work, "shim.mod"))
@@ -405,6 +414,12 @@ func (ctx *runCtx) runChild(v variant, bin string, shard int, only string, timeo
 	logPath := filepath.Join(out, "log.txt")
 	lf, _ := os.Create(logPath)
 	args := []string{"-test.timeout=0", "-test.count=1"}
+	if v.Fuzz != "" && only == "" {
+		args = append(args, "-test.run=^$", "-test.fuzz=^"+v.Fuzz+"$", fmt.Sprintf("-test.fuzztime=%dx", v.FuzzExecs),
+			"-test.fuzzcachedir="+filepath.Join(out, "fuzzcache"))
+	} else if v.Fuzz != "" {
+		args = append(args, "-test.run=^TestProp$") // a replay goes through the ordinary monitor
+	}
 	if v.Run != "" {
 		args = append(args, "-test.run="+v.Run)
 	}
@@ -482,5 +497,46 @@ func (ctx *runCtx) runChild(v variant, bin string, shard int, only string, timeo
 			r.sum = &s
 		}
 	}
+	if v.Fuzz != "" && only == "" {
+		r.sum = fuzzSummary(ctx.p.ID, v, logPath, r.exitCode, r.timedOut)
+	}
 	return r
+}
+
+var (
+	reFuzzProgress = regexp.MustCompile(`execs: (\d+) .*new interesting: \d+ \(total: (\d+)\)`)
+	reFuzzSig      = regexp.MustCompile(`VERIF-SIG (\S+)`)
+	reFuzzCase     = regexp.MustCompile(`VERIF-CASE (\{.*\})`)
+)
+
+// fuzzSummary turns the log of a native fuzzing child into a summary: executions and corpus size
+// from the engine's progress lines; a failing input (the target prints VERIF-SIG / VERIF-CASE) becomes
+// a violation record of the variant's monitor. Any other abnormal end stays incomplete (inconclusive).
+func fuzzSummary(prop string, v variant, logPath string, exit int, timedOut bool) *core.Summary {
+	b, _ := os.ReadFile(logPath)
+	log := string(b)
+	s := &core.Summary{Property: prop, Counters: map[string]int64{}, Monitors: map[string]core.MonitorStat{}, Extra: map[string]any{}, Exhaustive: map[string]int64{}}
+	var execs, corpus int64
+	for _, m := range reFuzzProgress.FindAllStringSubmatch(log, -1) {
+		fmt.Sscan(m[1], &execs)
+		fmt.Sscan(m[2], &corpus)
+	}
+	name := "fuzz:" + v.Fuzz
+	ms := core.MonitorStat{Evaluations: execs, Distinct: corpus}
+	s.Rules = []string{name + ": coverage-guided native Go fuzzing of the same oracle, bounded by an execution count; evaluations = executions, distinct = inputs that reached new coverage (the engine's corpus)"}
+	if sig := reFuzzSig.FindStringSubmatch(log); sig != nil {
+		rec := core.ViolationRec{Property: prop, Monitor: v.Monitor, Sig: sig[1], Count: 1, Detail: "found by " + name + "\n" + tailOf(logPath, 2500)}
+		if c := reFuzzCase.FindStringSubmatch(log); c != nil && json.Valid([]byte(c[1])) {
+			rec.Case = json.RawMessage(c[1])
+		}
+		s.Violations = append(s.Violations, rec)
+		ms.Violations = 1
+		s.Complete = true
+	} else if exit == 0 && !timedOut && strings.Contains(log, "PASS") {
+		s.Complete = true
+	}
+	s.Monitors[name] = ms
+	s.Evaluations, s.Distinct = execs, corpus
+	s.Counters["fuzz_executions"] = execs
+	return s
 }
